@@ -170,15 +170,19 @@ PROPS.update({
                        "reports exactly the occurrences (every reported binding is anchored at an occurrence and binds all constraint keys; every occurrence is "
                        "reported), match_exists is true iff an occurrence exists, NaiveManyMatcher numbers by position. "
                        "Multiplicity and order are not covered by a theorem. SinglePatternMatcher::find_matches / match_exists and NaiveManyMatcher are "
-                       "compared with the extracted model (exact sequences) and with an independent occurrence scan (exact anchor lists, order included); "
-                       "pattern -> constraint vectors are compared exactly. Port graphs: oracle only, with the known classes.",
+                       "compared with the extracted model (match lists as multisets) and with an independent occurrence scan; "
+                       "pattern -> constraint vectors are compared exactly. Port graphs: soundness c05_portgraph_single_embeds (every reported match is an embedding); "
+                       "completeness where it holds, c05_portgraph_single_reports_embeddings_of_good_patterns / _total: for patterns passing pg_good_pattern (single index root, "
+                       "the pattern's own walks reach every keyed node) every embedding into a well-formed host is reported - walks commute with embeddings; refuted outside "
+                       "that class (c05_portgraph_complete_refuted_*: the known findings D5, D6), where the oracle judges with the known classes; the model's pg_good_pattern is "
+                       "evaluated on the pattern of every miss classified as a known finding (must be 0).",
         "technique": "Coq proof on the model of the single-pattern matcher (strings and matrices: exact set of anchors) + differential correspondence with that model + occurrence oracle"},
     "C11": {"subs": ["c11", "pg11", "pgm"], "level": "proof",
         "rule": "random patterns (as for C01) inside sets of 1-4 patterns; each pattern is matched against its own instantiation (variables instantiated "
                 "consistently, also with equal characters for different variables; matrix holes filled), then along a random history of host extensions "
                 "of length <= 6 (quick) / 20 (thorough); the same from an occurrence found in a random planted host; every check is one case; "
                 "non-trivial = all of them (each involves an occurrence)",
-        "trusted_base": AUT_TB, "assumptions": AUT_ASSUME + ["port graphs: not covered by a theorem"], "timeout": 3000,
+        "trusted_base": AUT_TB, "assumptions": AUT_ASSUME + ["port graphs: matcher-level theorems for good patterns only (c11_portgraph_single_self_good, _extension_good); refuted in general (D6)"], "timeout": 3000,
         "explanation": "Theorems c11_*: self-occurrence and preservation of occurrence under every extension step are proved on the occurrence "
                        "semantics for all patterns, hosts and histories (strings, matrices); that the occurrence is then reported by ManyMatcher and "
                        "SinglePatternMatcher at the corresponding anchor is checked on the implementation at every step of every generated history; "
